@@ -92,10 +92,15 @@ def canary_text(text, linemap):
     out = []
     canaries = {}
     pending = None
+    stubs = set()
     for i, line in enumerate(lines):
         tag = linemap[i] if i < len(linemap) else None
+        if tag and tag[0] == 'spec' and tag[1].endswith('::stub'):
+            stubs.add(tag[1][:-len('::stub')])
         if tag and tag[0] == 'spec' and (tag[1].endswith('::post:kw') or tag[1].endswith('::pre:kw')):
             pending = tag[1].rsplit('::', 1)[0]
+            if pending in stubs:
+                pending = None
         out.append(line)
         if pending and tag and tag[0] == 'code' and line.strip().startswith('{'):
             # first line of the body
@@ -129,16 +134,42 @@ def load_known():
 
 
 def run_unit(unit_name, tier, seed):
-    g = gen.generate(unit_name)
-    text = open(g['path']).read()
     rl = 20 if tier == 'quick' else 80
-    r = verify.run_verus(g['path'], seed=seed if tier == 'thorough' else 0, rlimit=rl, threads=8)
-    c = verify.classify(g, r)
-    # vacuity canary
+    unverifiable = {}
+    # Functions whose text the verifier rejects (unsupported construct after a source change) are replaced by
+    # external_body stubs carrying their contract, so that the rest of the unit is still decided; the
+    # obligations of the stubbed function itself are reported as undecided, never as discharged.
+    for _round in range(4):
+        g = gen.generate(unit_name, force_stub=tuple(unverifiable))
+        probe = verify.run_verus(g['path'], 0, rl, 8, ['--no-verify'])
+        pc = verify.classify(g, probe)
+        bad = {}
+        for t in pc['tool_errors']:
+            if t.get('kind') in ('rustc', 'tool') and t.get('line'):
+                owner = verify._owner(g['linemap'], t['line'])
+                if owner and owner not in unverifiable:
+                    bad[owner] = t['message']
+        if not bad:
+            break
+        unverifiable.update(bad)
+    res = _run_unit(unit_name, tier, seed, g, rl)
+    res['unverifiable'] = unverifiable
+    return res
+
+
+def _run_unit(unit_name, tier, seed, g, rl):
+    text = open(g['path']).read()
+    # vacuity canary (runs concurrently with the real verification)
     ctext, canaries = canary_text(text, g['linemap'])
     cpath = g['path'][:-3] + '_canary.rs'
     open(cpath, 'w').write(ctext)
-    cr = verify.run_verus(cpath, rlimit=rl, threads=8, multiple_errors=2)
+    from concurrent.futures import ThreadPoolExecutor
+    with ThreadPoolExecutor(max_workers=2) as ex:
+        fr = ex.submit(verify.run_verus, g['path'], seed if tier == 'thorough' else 0, rl, 4)
+        fc = ex.submit(verify.run_verus, cpath, 0, rl, 4, None, 2)
+        r = fr.result()
+        cr = fc.result()
+    c = verify.classify(g, r)
     failed_canaries = set()
     for d in cr['diags']:
         if d.get('level') == 'error' and 'assertion failed' in d.get('message', ''):
@@ -165,17 +196,25 @@ def main(argv):
     os.makedirs(os.path.join(WORK, 'replays'), exist_ok=True)
     known = load_known()
     violations, undecided, notes = [], [], []
+    unreached = set()
     obligations, failed_names = {}, set()
     functions, backends, trusted = [], {}, {}
     solver_ms = 0.0
     samples = []
     checker_cmds = []
     units_run = []
-    for unit_name in spec['units']:
+    from concurrent.futures import ThreadPoolExecutor
+
+    def _run(unit_name):
         try:
-            res = run_unit(unit_name, tier, seed)
+            return run_unit(unit_name, tier, seed)
         except ExtractError as e:
-            undecided.append('unit %s: %s' % (unit_name, e))
+            return e
+    with ThreadPoolExecutor(max_workers=4) as ex:
+        results = list(ex.map(_run, spec['units']))
+    for unit_name, res in zip(spec['units'], results):
+        if isinstance(res, ExtractError):
+            undecided.append('unit %s: %s' % (unit_name, res))
             continue
         units_run.append(unit_name)
         unit = res['gen']['unit']
@@ -190,6 +229,14 @@ def main(argv):
             trusted[k] = trusted.get(k, 0) + v
         functions += ['%s/%s' % (unit_name, f) for f in res['gen']['functions']
                       if any(o.startswith(f + '::') for o in obs)]
+        for f, why in res.get('unverifiable', {}).items():
+            if any(o.startswith(f + '::') for o in obs):
+                undecided.append('unit %s: %s is outside the verifier\'s reach after this change (%s); its obligations are not discharged' % (unit_name, f, why))
+                for o in obs:
+                    if o.startswith(f + '::'):
+                        unreached.add('%s/%s' % (unit_name, o))
+            else:
+                notes.append('unit %s: %s stubbed (unsupported construct: %s); not needed by this property' % (unit_name, f, why))
         if res['gen']['dropped_hints']:
             notes.append('unit %s: dropped hints %s' % (unit_name, res['gen']['dropped_hints']))
         for t in cls['tool_errors']:
@@ -271,7 +318,7 @@ def main(argv):
 
     n_ob = len(obligations)
     n_failed = len([o for o in obligations if o in failed_names])
-    discharged = n_ob - n_failed
+    discharged = n_ob - len([o for o in obligations if o in failed_names or o in unreached])
     wall = time.time() - t0
     ev = dict(
         property_id=prop, tier=tier, seed=seed, level='proof',
